@@ -119,7 +119,9 @@ def response_headers(case):
     elif case.get("lm") is not None:
         hl.append(("Last-Modified", http_date(case["lm"])))
     if case.get("cr") is not None:
-        hl.append(("Content-Range", case["cr"]))
+        hl.append((case.get("crname") or "Content-Range", case["cr"]))
+    if case.get("cr2") is not None:
+        hl.append(("Content-Range", case["cr2"]))
     return hl
 
 
@@ -378,7 +380,7 @@ def facts(case):
         cstr(req.method), inm, copt(None if req.if_modified_since is None else cZ(ts_of(req.if_modified_since))),
         copt(None if rng is None else cstr(rng)), ifr, cstr(resp.status), cZ(resp.status_code), copt(etag),
         copt(None if resp.last_modified is None else cZ(ts_of(resp.last_modified))),
-        copt(None if cl is None else cZ(cl)), cbool(resp.content_range is not None),
+        copt(None if cl is None else cZ(cl)), cbool("Content-Range" in resp.headers),
         clist(cpair(cstr(k), cstr(v)) for k, v in resp.headerlist), app)
 
 
@@ -460,7 +462,7 @@ def ref_eval(case):
     else:
         ifr_ok = False
     code = int(case["status"].split()[0])
-    applicable = safe and code == 200 and case.get("clen", True) and case.get("cr") is None and ifr_ok
+    applicable = safe and code == 200 and case.get("clen", True) and case.get("cr") is None and case.get("cr2") is None and ifr_ok
     if form is None or not applicable:
         return [("full", None)]
     sel = ref_select(form, L)
@@ -589,6 +591,8 @@ def classify(case, wants, got, msg):
         return "416:headers"
     # want == full
     if code in ("206", "416"):
+        if case.get("cr") is not None or case.get("cr2") is not None:
+            return "range:existing-content-range-ignored"
         if rng is not None and form is None and re.match(r"bytes *= *\d* *- *\d*", rng, re.I):
             m = re.match(r"bytes *= *(\d*) *- *(\d*)", rng, re.I)
             if rng[m.end():].strip(" ") != "" and (m.group(1) or m.group(2)):
@@ -627,7 +631,7 @@ def oracle_case(case):
 
 def describe(case):
     hs = dict(request_headers(case))
-    cfg = " ".join("%s=%s" % (k, case[k]) for k in ("cond_via", "status_form", "hdr_via", "req_via", "call_via", "clraw", "lmraw")
+    cfg = " ".join("%s=%r" % (k, case[k]) for k in ("cr2", "crname", "cond_via", "status_form", "hdr_via", "req_via", "call_via", "clraw", "lmraw")
                    if case.get(k) is not None)
     return "%s %r on %s ETag=%r LM=%r CL=%s CR=%r body=%r iter=%s %s" % (
         case["method"], hs, case["status"], case.get("etag"), case.get("lm"), case.get("clen", True), case.get("cr"),
@@ -736,7 +740,11 @@ def rand_case(rng, maxlen=10, iters=("list", "gen", "file", "wrapper")):
     if rng.random() < 0.12:
         case["clen"] = False
     if rng.random() < 0.1:
-        case["cr"] = rng.choice(["bytes 0-0/1", "bytes */5", "bytes 1-2/*"])
+        case["cr"] = rng.choice(["bytes 0-0/1", "bytes */5", "bytes 1-2/*", "bytes 7-2/10", "garbage", "", "bytes 0-50/10"])
+        if rng.random() < 0.3:
+            case["cr2"] = rng.choice(["bytes 0-0/1", "garbage"])
+        if rng.random() < 0.3:
+            case["crname"] = "content-RANGE"
     if rng.random() < 0.5:
         case["extra"] = rng.sample([["X-Extra", "1"], ["Cache-Control", "max-age=3"], ["Vary", "Accept"],
                                     ["X-Content-Type", "y"], ["content-disposition", "inline"]], rng.randrange(1, 3))
@@ -824,7 +832,7 @@ def gen_ifrange():
             for etag in etags:
                 for lm in (None, T0):
                     for ifr in ifrs:
-                        for clen, cr in ((True, None), (False, None), (True, "bytes 0-1/3")):
+                        for clen, cr in ((True, None), (False, None), (True, "bytes 0-1/3"), (True, "bytes 2-1/3")):
                             for t in ("bytes=1-", "bytes=5-", "bytes=-2", "bytes=x"):
                                 yield {"method": method, "status": status, "chunks": ["61", "6263"], "etag": etag, "lm": lm,
                                        "ifr": ifr, "clen": clen, "cr": cr, "range": t, "extra": [["X-Extra", "1"]]}
@@ -832,6 +840,12 @@ def gen_ifrange():
 # (5) empty opaque tag, odd header-name spellings
 def gen_corner():
     for method in ("GET", "HEAD"):
+        for t in ("bytes=0-0", "bytes=5-", "bytes=-1"):
+            for cr, cr2 in (("bytes */2", None), ("bytes 7-2/10", None), ("garbage", None), ("", None), (" ", None),
+                            ("garbage", "bytes 0-0/2"), ("bytes 0-0/2", "garbage"), ("garbage", "junk")):
+                yield {"method": method, "status": "200 OK", "chunks": ["6162"], "range": t, "cr": cr, "cr2": cr2}
+                yield {"method": method, "status": "200 OK", "chunks": ["6162"], "range": t, "cr": cr, "cr2": cr2,
+                       "crname": "content-range"}
         yield {"method": method, "status": "200 OK", "chunks": ["61"], "etag": ["", False], "inm": [["", False]]}
         yield {"method": method, "status": "200 OK", "chunks": ["61"], "etag": ["", False], "inm": [["a", False]], "lm": T0, "ims": T0}
         yield {"method": method, "status": "200 OK", "chunks": ["6162"], "ctname": "content-TYPE", "clname": "CONTENT-length",
@@ -1072,7 +1086,6 @@ def gen_outside(ctx):
         for t in ("bytes=1-2", "bytes=4-", "bytes=-2", "bytes=9-", "bytes=2-50"):
             for clraw in ("3", "60", "0", "-5", "abc", "", "6 ", "+6", "0x6", "6.0"):
                 yield {"method": method, "status": "200 OK", "chunks": body, "range": t, "clraw": clraw, "what": "content-length"}
-            yield {"method": method, "status": "200 OK", "chunks": body, "range": t, "cr": "garbage", "what": "content-range"}
             yield {"method": method, "status": "200 OK", "chunks": body, "range": t, "etag": ["a", False], "ifr": ["raw", "*"],
                    "what": "if-range-star"}
             yield {"method": method, "status": "200 OK", "chunks": body, "range": t, "lmraw": "garbage", "ifr": ["date", T0],
